@@ -8,13 +8,19 @@ PROP = dict(
                    "has returned (C14_all_once, C14_never_twice), Close can return (C14_can_return), and from every reachable state "
                    "closer i can be invoked and finish while all siblings stand still (C14_no_block); all n closers can be inside their Close at the "
                    "same moment (C14_all_inside_together), so closers that wait for each other are all released. The same skeleton without Wait, "
-                   "or with Add inside the goroutine, has a schedule that returns with a closer not invoked (counterexample theorems).",
+                   "or with Add inside the goroutine, has a schedule that returns with a closer not invoked (counterexample theorems). "
+                   "Sixth round: with the definition registry's map keyed by the component name itself every registered component gets a "
+                   "definition of its own, whatever the names look like and in whatever order the parallel scans arrive "
+                   "(C14_exact_names_all_defined, C14_injective_key_all_defined); a key under which two different registered names collide - "
+                   "e.g. one that forgets the letter case - leaves a component without definition, hence never closed "
+                   "(C14_colliding_key_drops_a_component, C14_case_folded_key_counterexample).",
         level_note="Modelled, not verified: sync.WaitGroup (atomic counter, Wait enabled at 0), goroutine creation; the model cannot show "
                    "scheduler starvation, a closer that never returns, or a panic inside a closer goroutine. The tie to the code is the "
                    "regenerated skeleton (C14_skeleton) plus real App.Close runs with 0-62 closers, delays 0-30 ms, random error subsets, "
                    "closers of zero-size types among them (a component's address is not its identity), closers that are themselves wired with "
                    "the App and created before it (the App collects a closer that is still in creation), and closers whose type prints like "
-                   "the type of another component (reflect.Type.String() is not an identity; the harness process runs many Apps). Which "
+                   "the type of another component (reflect.Type.String() is not an identity; the harness process runs many Apps), and closers whose "
+                   "component names differ only in letter case (self-chosen names and type names; a name is compared exactly). Which "
                    "components reach App.CloserComponents is decided by the container's wiring (C06/C08 model it); here it is tied by the real runs only.",
         subs=[dict(sub="close", driver="conc", n_quick=150, n_thorough=1000)],
         thorough_seeds=3,
@@ -36,7 +42,12 @@ PROP = dict(
              "packages internal/dupa/conn and internal/dupb/conn, two function-local types `conn`), exactly one of a pair being a closer "
              "(Sess: both), in both registration orders, or split over two Apps that are started and closed one after the other in the same "
              "process, in both orders; all under the same exactly-once oracle close-not-all-once (every REGISTERED closer invoked once and "
-             "returned when Close returns)",
+             "returned when Close returns); sixth round, appended (n/8 cases) and present in the corpus: `closec <n> <errmask> <groups> <seed>`: 0-8 "
+             "ordinary closers plus 1-3 groups of 2-4 closers whose component NAMES DIFFER ONLY IN LETTER CASE - kind n: closers of one type naming "
+             "themselves orders / Orders / ORDERS / oRDERS; kind t: closers of the types pool / Pool / POOL / pOOL of the package internal/kase, "
+             "named by the container after their types; kind m: the type-named closer kase.Hub and closers naming themselves ...kase/hub, "
+             ".../kase/HUB, .../kase/hUB - which spellings take part and where they stand among the other components drawn from the seed, "
+             "registered in the drawn order or in the reverse order; same oracle",
         trusted_base=COMMON_TB + ["the reading of Facts.closeSkel into guards (Ioc.Conc.closeShape) and the go/ast skeleton extractor "
                                   "(harness/cmd/facts: calls named Add/Done/Wait/Close, go statements, loops, branches)",
                                   "sync.WaitGroup and the Go scheduler as modelled (atomic counter; every interleaving of atomic steps)"],
